@@ -61,6 +61,7 @@ def run(ctx):
             tasks.append(dict(fn='check_misc', kw=dict(merge=merge, seed=seed + ctx.seed)))
     for merge in (True, False):
         tasks.append(dict(fn='check_hier', kw=dict(merge=merge)))
+        tasks.append(dict(fn='check_import_history', kw=dict(merge=merge)))
         for variant in ('dual_clock', 'first_model_reused'):
             tasks.append(dict(fn='check_seq_hier', kw=dict(merge=merge, variant=variant)))
     for n in (2, 10, 11, 12, 23):
@@ -111,6 +112,8 @@ def run(ctx):
                 key = 'bench[%s/%d]' % (kw['gate'], kw['nin'])
             elif t['fn'] == 'check_wide_vector':
                 key = 'wide_vector[merge=%s]' % kw['merge']
+            elif t['fn'] == 'check_import_history':
+                key = 'import_history[merge=%s]' % kw['merge']
             elif t['fn'] == 'check_seq_hier':
                 key = 'hierarchy[%s, merge=%s]' % (kw['variant'], kw['merge'])
             elif t['fn'] == 'check_hier':
